@@ -31,7 +31,7 @@ REQUIRED = [
     "calls.Perm.rotate", "calls.Perm.reverse", "calls.Perm.complement", "calls.Perm.inverse", "calls.Perm.flip_antidiagonal",
     "calls.Perm.reverse_complement", "calls.Perm.all_syms", "calls.MeshPatt.rotate", "calls.MeshPatt.reverse",
     "calls.MeshPatt.complement", "calls.MeshPatt.inverse", "calls.MeshPatt.all_syms", "calls.symmetry.all_symmetry_sets",
-    "calls.symmetry.lex_min", "equivariance.true", "equivariance.false", "cli.inprocess", "cli.subprocess", "relations.checked",
+    "calls.symmetry.lex_min", "equivariance.true", "equivariance.false", "cli.inprocess", "cli.subprocess", "relations.checked", "aliasing.orbit_mutated", "equivariance.random_classmethod_patterns",
 ]
 MIN_NONTRIVIAL = 500
 CTX = None
@@ -283,6 +283,9 @@ def minimal(perms):
 
 def chk_sets(ctx, perms):
     PS = [Perm(p) for p in perms]
+    first = S.all_symmetry_sets(PS)
+    first.clear()  # a caller that edits a returned orbit must not change later answers
+    ctx.count("aliasing.orbit_mutated")
     sets = S.all_symmetry_sets(PS)
     lm = S.lex_min(PS)
     ctx.ev()
@@ -370,6 +373,31 @@ def run(ctx, spec):
             if rng.random() < 0.2:
                 Mp = BivincularPatt(Mp.pattern, [x for x in range(k + 1) if rng.random() < 0.3], [x for x in range(k + 1) if rng.random() < 0.3])
             chk_mesh(ctx, enc(Mp))
+        import random as _random
+        from permuta import CovincularPatt, VincularPatt
+        for _ in range(spec["equiv"] // 8):
+            # bivincular-type patterns from the random() class methods and from one-shot iterables
+            _random.seed(rng.randrange(10 ** 9))
+            k = rng.randint(1, 3)
+            cls = rng.choice([BivincularPatt, VincularPatt, CovincularPatt])
+            if rng.random() < 0.5:
+                B = cls.random(k)
+            else:
+                p = Perm(rng.sample(range(k), k))
+                req = lambda: (x for x in range(k + 1) if rng.random() < 0.4)  # noqa: E731
+                B = BivincularPatt(p, req(), iter(list(req()))) if cls is BivincularPatt else cls(p, req())
+            n = rng.randint(k, 6)
+            t = rng.sample(range(n), n)
+            want = M.contains(tuple(t), tuple(B.pattern), frozenset(B.shading))
+            for g in range(8):
+                got = real_sym(Perm(t), g).contains(real_sym(B, g))
+                ctx.ev()
+                ctx.count("equivariance.true" if want else "equivariance.false")
+                if got is not want:
+                    report("equiv", [t, enc(B), g], f"{type(B).__name__} built by random()/iterables: {tuple(t)} contains {B!r} is {want}, but the image under symmetry #{g} says {got}")
+            if B.contains is not None and Perm(t).contains(B) is not want:
+                report("equiv", [t, enc(B), 0], f"{tuple(t)}.contains({B!r}) = {not want}, cell geometry gives {want}")
+            ctx.count("equivariance.random_classmethod_patterns")
         for _ in range(spec["equiv"]):
             n = rng.randint(1, 8)
             t = rng.sample(range(n), n)
